@@ -67,6 +67,33 @@
 (* the unit point, the last rows of x1 are the first rows of x2), the stub *)
 (* keeps Iota.                                                             *)
 (*                                                                         *)
+(* SETTINGS AND MODE (the environment).  What a kernel MEANS depends on    *)
+(* the environment it is evaluated in: train / eval mode of the module and *)
+(* the global settings sgpr_diagonal_correction and use_toeplitz (and       *)
+(* lazily_evaluate_kernels, which every relation of the replay already     *)
+(* crosses).  An environment is <<mode, correction, toeplitz>>; the kernel *)
+(* value carries the code of the environment it is evaluated in (EnvCode,  *)
+(* restricted to the components in Sens the modelled kernel reads) and the *)
+(* code is part of EVERY label of its dense value: a relation (diag =      *)
+(* diagonal, transpose, blocks, slices) is stated between two readings     *)
+(* under the SAME environment and must hold under each of them.  Family    *)
+(* "geo" enumerates (pattern, geometry, environment) for the aligned       *)
+(* patterns (EnvPattern); EnvCover states that the enumerated family       *)
+(* contains the default and every PAIR of setting values (all of AllEnvs   *)
+(* in the thorough tier), EnvVisible that two environments which differ in *)
+(* a component of Sens give different labels.  The replay evaluates the    *)
+(* stub (whose forward reads the three components at evaluation time) and  *)
+(* every zoo kernel x relation under every enumerated environment.         *)
+(*                                                                         *)
+(* DIAGONAL CLASS OF THE ZOO.  A relation about diagonals (diag=True, the  *)
+(* Kronecker / block layout of a multi-output diagonal) holds by symmetry  *)
+(* when the diagonal of the member kernel is CONSTANT over the points      *)
+(* (stationary kernels).  CONSTANT Zoo lists <<name, structure, class of   *)
+(* the diagonal, outputs per input>> of every zoo kernel; ZooDiagCover     *)
+(* states that every composite / multi-output structure occurs with a      *)
+(* member whose diagonal VARIES over the points (the replay probes the     *)
+(* declared class on the real kernel).                                     *)
+(*                                                                         *)
 (* PROPERTIES.  Agree: the label tensor the code produces is the           *)
 (* declarative one, for every operation valid for the shape.  The model    *)
 (* violates it; TLC's counterexamples are predictions which the replay     *)
@@ -108,10 +135,21 @@ CONSTANTS N1, N2,        \* rows of x1, x2
           MaxSteps,      \* chain length (1 = single operations)
           Pad,           \* how far slice bounds reach beyond the axis (rs / cs families)
           NChunks,       \* the index expressions of a (pattern, family) are split over this many initial states (parallelism)
-          ChunkSet       \* the chunks this run explores (a subset of 0..NChunks-1; the others belong to parallel runs)
+          ChunkSet,      \* the chunks this run explores (a subset of 0..NChunks-1; the others belong to parallel runs)
+          Envs,          \* family "geo": the environments <<mode, sgpr_diagonal_correction, use_toeplitz>> enumerated by this run
+          Sens,          \* the components of the environment the modelled kernel reads (subset of {"mode", "corr", "toep"})
+          Zoo            \* <<name, structure, "varying" | "constant" (diagonal over the points), outputs per input>> of every zoo kernel
 
-VARIABLES pat, fam, chunk, geo, cur, steps, hist
-vars == <<pat, fam, chunk, geo, cur, steps, hist>>
+VARIABLES pat, fam, chunk, geo, env, cur, steps, hist
+vars == <<pat, fam, chunk, geo, env, cur, steps, hist>>
+
+\* ---- environments -----------------------------------------------------------------------------
+DefaultEnv == <<"train", "on", "on">>
+AllEnvs == {<<m, c, t>> : m \in {"train", "eval"}, c \in {"on", "off"}, t \in {"on", "off"}}
+\* the part of an environment the modelled kernel can see, as a number (0 for the default environment)
+EnvCode(e) == (IF "mode" \in Sens /\ e[1] = "eval" THEN 1 ELSE 0) + (IF "corr" \in Sens /\ e[2] = "off" THEN 2 ELSE 0)
+              + (IF "toep" \in Sens /\ e[3] = "off" THEN 4 ELSE 0)
+EnvPairs(E) == {<<i, e[i], j, e[j]>> : i \in 1..3, j \in 1..3, e \in E}
 
 \* ---- items ------------------------------------------------------------------------------------
 Sl(a, b, s) == [k |-> "slice", a |-> a, b |-> b, s |-> s]
@@ -257,9 +295,10 @@ SymLab(l) == LET c == l % 4 v == (l \div 4) % 32 a == (l \div 128) % 4 u == (l \
              IN LabEnc(p, v, c, u, a)
 
 \* ---- kernels ---------------------------------------------------------------------------------------------
-KErr == [bs |-> <<>>, pars |-> <<>>, ad |-> Err, err |-> TRUE]
-MkKernel(pb) == [bs |-> pb, pars |-> [i \in DOMAIN Tails |-> Iota(pb \o Tails[i], 0)],
-                 ad |-> Tn(<<Len(AD)>>, AD), err |-> FALSE]
+KErr == [bs |-> <<>>, pars |-> <<>>, ad |-> Err, env |-> 0, err |-> TRUE]
+\* env: the code of the environment the kernel is evaluated in (it belongs to the evaluation, every derived kernel keeps it)
+MkKernel(pb, ec) == [bs |-> pb, pars |-> [i \in DOMAIN Tails |-> Iota(pb \o Tails[i], 0)],
+                     ad |-> Tn(<<Len(AD)>>, AD), env |-> ec, err |-> FALSE]
 HasAD == AD # <<>>
 \* the active_dims buffer takes part in Kernel.__getitem__ / expand_batch (pinned code); the repair skips it
 ADIndexed == HasAD /\ "active_dims_buffer" \notin Repairs
@@ -282,7 +321,7 @@ KGetItem(k, idx) ==
           ELSE IF ADIndexed /\ newad.err THEN KErr                            \* IndexError
           ELSE [bs |-> IF ADIndexed THEN BsAfter(k.ad, newad)
                        ELSE IF Len(k.pars) > 0 THEN BsAfter(k.pars[Len(k.pars)], newp[Len(newp)]) ELSE k.bs,
-                pars |-> newp, ad |-> IF ADIndexed THEN newad ELSE k.ad, err |-> FALSE]
+                pars |-> newp, ad |-> IF ADIndexed THEN newad ELSE k.ad, env |-> k.env, err |-> FALSE]
 
 \* Kernel.expand_batch(new)
 KExpand(k, new) ==
@@ -293,18 +332,18 @@ KExpand(k, new) ==
            newp == [i \in DOMAIN k.pars |-> Ex(k.pars[i])]
            newad == Ex(k.ad)
        IN IF (\E i \in DOMAIN newp : newp[i].err) \/ (ADIndexed /\ newad.err) THEN KErr   \* RuntimeError from Tensor.expand
-          ELSE [bs |-> new, pars |-> newp, ad |-> IF ADIndexed THEN newad ELSE k.ad, err |-> FALSE]
+          ELSE [bs |-> new, pars |-> newp, ad |-> IF ADIndexed THEN newad ELSE k.ad, env |-> k.env, err |-> FALSE]
 
 \* what kernel[idx] / kernel.expand_batch(new) MEAN: the parameter family is indexed / broadcast, active_dims is untouched
 KGetItemExpected(k, idx) ==
   LET lab == TIndex(Iota(k.bs, 0), idx)
   IN IF Len(k.bs) = 0 THEN k
      ELSE IF lab.err THEN KErr
-     ELSE [bs |-> lab.shape, pars |-> [i \in DOMAIN k.pars |-> TIndex(k.pars[i], idx)], ad |-> k.ad, err |-> FALSE]
+     ELSE [bs |-> lab.shape, pars |-> [i \in DOMAIN k.pars |-> TIndex(k.pars[i], idx)], ad |-> k.ad, env |-> k.env, err |-> FALSE]
 KExpandExpected(k, new) ==
   IF BC2(new, k.bs) # new THEN KErr
-  ELSE [bs |-> new, pars |-> [i \in DOMAIN k.pars |-> TExpandTo(k.pars[i], new \o Tails[i])], ad |-> k.ad, err |-> FALSE]
-SameK(a, b) == (a.err /\ b.err) \/ (~a.err /\ ~b.err /\ a.bs = b.bs /\ a.ad = b.ad
+  ELSE [bs |-> new, pars |-> [i \in DOMAIN k.pars |-> TExpandTo(k.pars[i], new \o Tails[i])], ad |-> k.ad, env |-> k.env, err |-> FALSE]
+SameK(a, b) == (a.err /\ b.err) \/ (~a.err /\ ~b.err /\ a.bs = b.bs /\ a.ad = b.ad /\ a.env = b.env
                                      /\ \A i \in DOMAIN a.pars : SameT(a.pars[i], b.pars[i]))
 
 \* ---- lazy tensors -------------------------------------------------------------------------------------------
@@ -337,7 +376,7 @@ Dense(L) ==
       ParLab(q) == LET RECURSIVE Sum(_)
                        Sum(i) == IF i > Len(k.pars) THEN 0
                                  ELSE k.pars[i].data[UnbFlat(prefs[i], EB, q) * Prod(Tails[i]) + 1] + 8 * Sum(i + 1)
-                   IN Sum(1)
+                   IN Sum(1) + 64 * k.env          \* (parameter labels stay below 64: at most two parameters of at most 8 batch elements)
       PL == [q \in 1..nb |-> ParLab(q - 1)]
       O1 == [q \in 1..nb |-> UnbFlat(b1, EB, q - 1) * n1]
       O2 == [q \in 1..nb |-> UnbFlat(b2, EB, q - 1) * n2]
@@ -619,21 +658,24 @@ RequiredFeatures == {<<w, c>> : w \in {"x1", "x2"}, c \in SpecialClasses \cup {"
 DataGeo == <<SubSeq(<<0, 3, 1>>, 1, N1), SubSeq(<<3, 1, 2>>, 1, N2)>>
 
 \* ---- the machine ------------------------------------------------------------------------------------------------
-Start(p, f, g) == IF f = "geo" THEN MkLazy(GeoX(p[2], g[1]), GeoX(p[3], g[2]), MkKernel(p[1]))
-                  ELSE MkLazy(Iota(p[2] \o <<N1, 1>>, 0), Iota(p[3] \o <<N2, 1>>, 0), MkKernel(p[1]))
+Start(p, f, g, e) == IF f = "geo" THEN MkLazy(GeoX(p[2], g[1]), GeoX(p[3], g[2]), MkKernel(p[1], EnvCode(e)))
+                     ELSE MkLazy(Iota(p[2] \o <<N1, 1>>, 0), Iota(p[3] \o <<N2, 1>>, 0), MkKernel(p[1], EnvCode(e)))
+\* the patterns on which the environment is enumerated: x1, x2 (and the parameters, when batched) share one batch shape without broadcasting axes
+EnvPattern(p) == p[2] = p[3] /\ (p[1] = <<>> \/ p[1] = p[2]) /\ \A d \in DOMAIN p[2] : p[2][d] > 1
+EnvOf(p, f) == IF f = "geo" /\ EnvPattern(p) THEN Envs ELSE {DefaultEnv}
 
 NoTensor == [shape |-> <<>>, data |-> <<>>, err |-> FALSE]
 Obj(L, den, isden) == [L |-> L, den |-> den, isden |-> isden]
 
 \* dense value of the initial lazy tensor of every (pattern, family, geometry) (a constant: TLC evaluates it once)
 GeoOf(f) == IF f = "geo" THEN Geos ELSE {DataGeo}
-StartKeys == UNION {{<<j[1], j[2], g>> : g \in GeoOf(j[2])} : j \in Jobs}
-D0F == [key \in StartKeys |-> Dense(Start(key[1], key[2], key[3]))]
-d0 == D0F[<<pat, fam, geo>>]
+StartKeys == UNION {{<<j[1], j[2], g, e>> : g \in GeoOf(j[2]), e \in EnvOf(j[1], j[2])} : j \in Jobs}
+D0F == [key \in StartKeys |-> Dense(Start(key[1], key[2], key[3], key[4]))]
+d0 == D0F[<<pat, fam, geo, env>>]
 
-Init == /\ \E j \in Jobs : pat = j[1] /\ fam = j[2] /\ geo \in GeoOf(j[2])
+Init == /\ \E j \in Jobs : pat = j[1] /\ fam = j[2] /\ geo \in GeoOf(j[2]) /\ env \in EnvOf(j[1], j[2])
         /\ chunk \in ChunkSet
-        /\ cur = Obj(Start(pat, fam, geo), NoTensor, FALSE)
+        /\ cur = Obj(Start(pat, fam, geo, env), NoTensor, FALSE)
         /\ steps = 0 /\ hist = <<>>
 
 \* the declarative value of the object before this step
@@ -653,7 +695,7 @@ Index(idx) ==
          ls == IF r.isden \/ m.err THEN m.shape ELSE LKSize(r.L)
      IN /\ cur' = Obj(r.L, IF r.isden THEN m ELSE IF m.err THEN Err ELSE NoTensor, r.isden)
         /\ hist' = Append(hist, Record("getitem", idx, <<>>, e, m, ls, r.br, r.path, IF cur.isden THEN "none" ELSE StepClass(cur.L, idx)))
-  /\ steps' = steps + 1 /\ UNCHANGED <<pat, fam, chunk, geo>>
+  /\ steps' = steps + 1 /\ UNCHANGED <<pat, fam, chunk, geo, env>>
 
 \* transposition, unsqueeze, repeat, diagonal of the initial lazy tensor
 Op(op, arg) ==
@@ -671,7 +713,7 @@ Op(op, arg) ==
          ls == IF op = "diagonal" \/ m.err THEN m.shape ELSE LKSize(r)
      IN /\ cur' = Obj(r, IF op = "diagonal" THEN m ELSE IF m.err THEN Err ELSE NoTensor, op = "diagonal")
         /\ hist' = Append(hist, Record(op, <<>>, arg, e, m, ls, <<"-", "-", "-">>, op, IF op \in {"unsqueeze", "repeat"} THEN OpClass(cur.L) ELSE "none"))
-  /\ steps' = steps + 1 /\ UNCHANGED <<pat, fam, chunk, geo>>
+  /\ steps' = steps + 1 /\ UNCHANGED <<pat, fam, chunk, geo, env>>
 
 \* kernel[idx] and kernel.expand_batch(shape) on the kernel alone: recorded as the tensor of parameter labels
 \* (first parameter), with the active_dims buffer appended to the shape record
@@ -685,7 +727,7 @@ KOp(op, idx, arg) ==
         /\ hist' = Append(hist, [op |-> op, cls |-> IF ADIndexed THEN "active_dims" ELSE "none", idx |-> idx, arg |-> arg, eerr |-> e.err, eshape |-> AsT(e).shape, edata |-> AsT(e).data,
                                  merr |-> m.err, mshape |-> AsT(m).shape, agree |-> SameK(e, m),
                                  br |-> <<IF m.err THEN "raise" ELSE IF m.ad = k.ad THEN "ad-kept" ELSE "ad-changed", "-", "-">>, path |-> op])
-  /\ steps' = steps + 1 /\ UNCHANGED <<pat, fam, chunk, geo>>
+  /\ steps' = steps + 1 /\ UNCHANGED <<pat, fam, chunk, geo, env>>
 
 \* the relations that need more than the lazy tensor kernel(x1, x2) itself (family "geo"):
 \*   diag11     kernel(x1, x1).diagonal() / kernel(x1, x1, diag=True)        = the diagonal of dense kernel(x1, x1)
@@ -710,7 +752,7 @@ Rel(op) ==
          ls == IF op = "stack" /\ ~r.isden /\ ~m.err THEN LKSize(r.L) ELSE m.shape
      IN /\ cur' = Obj(LErr, m, TRUE)
         /\ hist' = Append(hist, Record(op, <<>>, <<>>, e, m, ls, r.br, op, "none"))
-  /\ steps' = steps + 1 /\ UNCHANGED <<pat, fam, chunk, geo>>
+  /\ steps' = steps + 1 /\ UNCHANGED <<pat, fam, chunk, geo, env>>
 
 \* index expressions of the geometry family: the whole tensor (lazy = eager), row / column slices without an explicit stop on
 \* the other axis, the first row, one entry
@@ -760,6 +802,21 @@ GeoCover == ("geo" \in {j[2] : j \in Jobs}) =>
               /\ \A g \in Geos : Len(g[1]) = N1 /\ Len(g[2]) = N2 /\ \A i \in DOMAIN g[1] : g[1][i] \in PointIds
               /\ \A g \in Geos : \A j \in DOMAIN g[2] : g[2][j] \in PointIds
               /\ RequiredFeatures \subseteq UNION {GeoFeatures(g) : g \in Geos}
+\* the environments of a "geo" run: the default, every pair of setting values (a pairwise covering family; AllEnvs covers trivially),
+\* and the modelled kernel SEES every component it reads (two environments that differ there give different labels everywhere)
+HasGeo == "geo" \in {j[2] : j \in Jobs}
+EnvCover == HasGeo => /\ Envs \subseteq AllEnvs /\ DefaultEnv \in Envs
+                      /\ EnvPairs(AllEnvs) \subseteq EnvPairs(Envs)
+                      /\ \E j \in Jobs : j[2] = "geo" /\ EnvPattern(j[1]) /\ j[1][2] # <<>>       \* ... also on batched data
+EnvVisible == (fam = "geo" /\ steps = 0 /\ Sens = {"mode", "corr", "toep"}) =>
+                \A e \in EnvOf(pat, fam) : e # env => \A q \in DOMAIN d0.data : D0F[<<pat, fam, geo, e>>].data[q] # d0.data[q]
+\* every composite / multi-output structure of the zoo has a member whose diagonal varies over the points (and of this run's T
+\* when it is a multi-output structure): a diag relation of such a structure cannot hold by the symmetry of a stationary member
+CompositeStructs == {"scale", "sum", "product", "nested", "multitask", "lcm", "gridinterp", "inducing", "grad"}
+MultiOutputStructs == {"multitask", "lcm", "grad"}
+ZooDiagCover == HasGeo => /\ \A z \in Zoo : z[3] \in {"varying", "constant"} /\ z[2] \in CompositeStructs \cup {"plain"}
+                          /\ \A s \in CompositeStructs : \E z \in Zoo : z[2] = s /\ z[3] = "varying"
+                          /\ T > 1 => \A s \in {"multitask", "lcm"} : \E z \in Zoo : z[2] = s /\ z[3] = "varying" /\ z[4] = T
 \* on the geometry family the transcribed code has no deviation at all (none of the relations falls into a class of StepClass / OpClass)
 GeoAgree == fam = "geo" => Agree
 \* declaratively: the upper right block of kernel(xs, xs), xs = cat(x1, x2), is kernel(x1, x2)
